@@ -24,6 +24,11 @@ def specs_for(rng, n):
         for g in (1.02, 2.0, 1.0202027004415701):
             for off in (1e-20, -1e-20, 5.551115123125783e-17, 5e-324, nextafter(3.0, True), nextafter(3.0, False), nextafter(-2.0, True), nextafter(-2.0, False), 2.0 ** -53, -(2.0 ** -54)):
                 out.append("%s:g:%s:%s" % (kind, f2h(g), f2h(off)))
+    # offsets near +-2^31: the int32 clamp of the constructors, not the float overflow, then bounds the indexable range on one side
+    for kind in ("log", "lin", "cub"):
+        for a, off in ((1e-6, 1.9e9), (1e-6, -1.9e9), (1e-3, 2.1473e9), (1e-3, -2.1473e9), (1e-2, 2147480000.5), (1e-2, -2147480000.5), (0.1, 2.0 ** 31 - 100), (0.1, -(2.0 ** 31) + 100), (0.5, 2147483000.0)):
+            g0 = (1 + a) / (1 - a); g = g0 if kind == "log" else g0 ** math.log(2) if kind == "lin" else g0 ** (10 * math.log(2) / 7)
+            out.append("%s:g:%s:%s" % (kind, f2h(g), f2h(off)))
     while len(out) < n:
         s, a = mapspec(rng); out.append(s)
         if rng.random() < 0.5:
@@ -39,7 +44,7 @@ def run(tier, seed):
         rep.violation("build", {"what": "vrun does not build against /repo", "log": log[-3000:]}, found_input=False)
         core.proof_section(rep, pid); return rep.finish()
     core.proof_section(rep, pid, trusted_extra=["theorems are about the ideal (real-arithmetic) mappings; their float64 evaluation through Go's math.Log/Exp/Exp2/Log2/Pow/Cbrt is validated by this run's exact-rational oracle, not proved"])
-    specs = specs_for(rng, 240 if tier == "quick" else 700)
+    specs = specs_for(rng, 270 if tier == "quick" else 730)
     facts = sketchcheck.learn_specs(pid, specs)
     npts = 150 if tier == "quick" else 1500
     # phase A: indexes of the probe values
